@@ -355,11 +355,13 @@ conditions:
 							if (myH[i]^otherH[i])&mask[i] == 0 {
 								continue
 							}
+							// the hosts differ
 							if !cc.Invert {
 								forbidden.Set(uint(resIdx))
-								continue outer
 							}
+							continue outer
 						}
+						// the hosts are equal
 						if cc.Invert {
 							forbidden.Set(uint(resIdx))
 						}
